@@ -19,7 +19,7 @@ use std::sync::atomic::{AtomicUsize, Ordering};
 use pico::{Database, MemoRef, SourceId, Storage};
 use pico_macros::{Db, Source, memo};
 
-// In the cache-of-one runs of at most 4 steps every deallocation is quarantined (recorded,
+// In the runs of at most 4 steps that contain a collection every deallocation is quarantined (recorded,
 // poisoned, never reused), so that a reference into freed memory is DETECTED from its address
 // instead of being read (deterministic, no reliance on a crash).
 use std::alloc::{GlobalAlloc, Layout, System};
@@ -126,10 +126,11 @@ fn run(h: &[usize], lru_capacity: Option<usize>) -> Result<(), String> {
         Some(c) => TestDatabase { storage: Storage::new_with_capacity(std::num::NonZeroUsize::new(c).unwrap()) },
         None => TestDatabase::default(),
     };
-    // cache of one: equal rows of DIFFERENT tables are avoided (that sharing + eviction is the
+    // histories with a collection: equal rows of DIFFERENT tables are avoided (an interned node
+    // shared by producers over different tables + a collection of the first owner's rows is the
     // recorded finding F-C03a, reproduced by pico_intern_dangling); producers over the same
     // table still share their interned node
-    let disjoint = lru_capacity.is_some() && std::env::var("VERIF_SHARE_ACROSS_TABLES").is_err();
+    let disjoint = h.contains(&11) && std::env::var("VERIF_SHARE_ACROSS_TABLES").is_err();
     let mut v = [0usize, 0usize];
     let ta = db.set(table("a", v[0], disjoint));
     let tb = db.set(table("b", v[1], disjoint));
@@ -185,7 +186,7 @@ fn main() {
             n += 1;
             for cap in [None, Some(1usize)] {
                 if std::env::var("TRACE").is_ok() { eprintln!("{} {:?}", show(&h), cap); }
-                let q = cap.is_some() && h.len() <= 4;
+                let q = h.contains(&11) && h.len() <= 4;
                 FREED_FROM.store(N_FREED.load(Ordering::SeqCst).min(MAX_FREED), Ordering::SeqCst);
                 QUARANTINE.store(q, Ordering::SeqCst);
                 let r = std::panic::catch_unwind(|| run(&h, cap));
